@@ -149,7 +149,7 @@ def get_trace(job, ob):
     out = os.path.join(job.dir, "trace_%s.txt" % re.sub(r'\W', '_', ob["id"]))
     try:
         results, _dt, _ = cbmc.run_cbmc(job.argv_base + ["--trace", "--property", ob["id"]],
-                                        job.dir, out, job.timeout, job.mem_gb)
+                                        job.dir, out, min(job.timeout, max(300, int(3 * job.solver_s) + 60)), job.mem_gb)
     except Undecided as e:
         return None, "trace run undecided: %s" % e
     with open(out, "r", errors="replace") as f:
@@ -260,6 +260,9 @@ def run_property(mod, tier, seed=0, mutant=None, keep=False, quiet=False):
                 undecided.append(j)
                 continue
             for ob in j.failed[:1] if trace_budget > 0 else []:
+                k0 = match_known(known, pid, j, ob, None)
+                if k0 and not k0.get("signature"):
+                    continue        # listed by run + obligation alone: no counterexample needed to recognise it (handled below)
                 trace_budget -= 1
                 vals, terr = get_trace(j, ob)
                 rep = {"property": pid, "job": j.name, "obligation": ob, "verifier": "cbmc 6.11.0",
@@ -299,7 +302,7 @@ def run_property(mod, tier, seed=0, mutant=None, keep=False, quiet=False):
                     violations.append((j, ob, None, None))
         if not mutant:
             for k, j, ob, sig in known_hits:
-                print("KNOWN-FINDING: property=%s %s [job %s, obligation %s]" % (pid, k["what"], j.name, ob["desc"]))
+                print("KNOWN-FINDING: property=%s %s [run %s, obligation: %s]" % (pid, k["what"][:220], j.name, ob["desc"][:90]))
         first_path = None
         printed = set()
         violations.sort(key=lambda v: (v[2] is None, v[0].weight))
